@@ -24,10 +24,13 @@ def relayout(text, rng, comments=0.0, keep_comment_lines=True):
         r = rng.random()
         if comments and r < comments:
             n += 1
+            # a third of the inserted comments repeat a text used before (a `// reserved`
+            # on several fields is ordinary): comments are distinct tokens, not distinct texts
+            c = rng.choice(["// reserved", "//", "// c1"]) if rng.random() < 0.34 else "// c%d" % n
             if rng.random() < 0.5:
-                out.append(" // c%d" % n + "\n")
+                out.append(" " + c + "\n")
             else:
-                out.append("\n// c%d" % n + "\n")
+                out.append("\n" + c + "\n")
         out.append(rng.choice([" ", " ", "  ", "\t", "\n", "\n\n", " \n  "]))
     return "".join(out)
 
@@ -77,4 +80,11 @@ FIXED_TEXTS = ["", " ", "\n", "// only a comment", "// c\n", "zzz packet A { u8 
                "// leading\nroot packet A { // after brace\n    // before attr\n    @tag(1)\n    u8 x, // same line\n    // before rbrace\n}\n// trailing\n",
                "root packet A {\n    u8 k,\n    match k as m {\n        1 : B, // after last pair\n    },\n}\npacket B {\n}\n",
                "MetaData M {\n    // inside metadata\n    u8 a `d`, // right of entry\n}\n",
+               # a comment on the line of the closing brace of the LAST definition, for each kind of definition
+               "packet A {\n    u8 x,\n} // after the last packet\n", "options {\n    LittleEndian = true;\n} // after options\n",
+               "packet A {\n    M x,\n}\nMetaData M {\n    u8 a,\n} // after metadata\n",
+               "MetaData M {\n    u8 a,\n} // after metadata, not last\npacket A {\n}\n",
+               "packet A {\n}\noptions {\n    LittleEndian = true;\n} // after options, last\n// and one more line\n",
+               # comment texts repeat; comments are distinct tokens
+               "// reserved\nroot packet A {\n    u8 a, // reserved\n    u8 b, // reserved\n    // reserved\n    u8 c, //\n    u8 d, //\n}\n// reserved\n",
                "// fill ratio 0-100%! %d of %s, 50%% \\n\n// second\nroot packet Order {\n    u32 qty `filled %d of total, in %`, // 100%\n    string note `tab\there \"quoted\" $HOME`,\n}\n"]
